@@ -83,10 +83,11 @@ fn start_watchdog(ex: &Explorer, property: String) {
             let now = t0.elapsed().as_millis() as u64;
             for w in watches.iter() {
                 let s = w.start_ms.load(Ordering::SeqCst);
-                if s != 0 && now > s + 30_000 {
+                let limit = if w.item.lock().unwrap().as_ref().map_or(false, |(n, _)| n.starts_with("sweep unit")) { 300_000 } else { 30_000 };
+                if s != 0 && now > s + limit {
                     let item = w.item.lock().unwrap().clone();
                     if let Some((scenario, prefix)) = item {
-                        let f = Found { scenario: scenario.clone(), choices: prefix, violation: Violation { clause: "hang".into(), sig: "hang".into(), detail: "an execution did not finish within 30 s of wall time (executions normally take milliseconds): an uflow call does not return".into() }, deviations: 0 };
+                        let f = Found { scenario: scenario.clone(), choices: prefix, violation: Violation { clause: "hang".into(), sig: "hang".into(), detail: "an execution did not finish within 30 s of wall time, or a sweep unit within 300 s (executions normally take milliseconds, units seconds): an uflow call does not return".into() }, deviations: 0 };
                         let path = write_replay(&property, &f);
                         if property == "C03" {
                             println!("VIOLATION property=C03 replay={}", path);
